@@ -106,7 +106,7 @@ func genC13Hist(r *rng, n int, w *bufio.Writer) {
 			ans = "F"
 			note = "FIRST DIFFERENCE: " + diff + "; " + note
 		}
-		fmt.Fprintf(w, "assert c13hist %d = %s ## %s\n", nq, ans, strings.ReplaceAll(note, "\n", "\\n"))
+		fmt.Fprintf(w, "assert c13hist %d %d %s = %s ## %s\n", done, nq, gfHash(world.describe()), ans, strings.ReplaceAll(note, "\n", "\\n"))
 		gfModelLine(w, "c13model", t, nil, -1, entries, fmt.Sprintf("abstract trace of the history above (%d entries)", len(entries)))
 		world.cleanup()
 		done += nq
